@@ -816,7 +816,18 @@ pub fn worker(a: &Args) -> i32 {
         // every string over the alphabet up to --len symbols
         "exhaustive" => {
             let maxlen = a.u64("len", 6) as usize;
+            // "dict": the structural symbols plus the non-ASCII / unusual tokens found in the source of
+            // src/aisle.rs that the fixed alphabets do not contain (at most 6 of them)
+            let dict_tokens: Vec<String> = {
+                let base = ["[", "]", "|", "/", "//", "\n", " ", "a", "b", "A", "\u{a0}", "\r\n", "\r", "\t"];
+                crate::dict::get().aisle.iter().filter(|t| !base.contains(&t.as_str()) && t.chars().count() <= 2 && !t.chars().all(|c| c.is_ascii_alphanumeric())).take(6).cloned().collect()
+            };
             let alpha: Vec<&str> = match a.str("alphabet", "ascii7").as_str() {
+                "dict" => {
+                    let mut v = vec!["[", "]", "|", "\n", "a"];
+                    v.extend(dict_tokens.iter().map(|s| s.as_str()));
+                    v
+                }
                 "ascii7" => vec!["[", "]", "|", "/", "\n", " ", "a"],
                 "wide" => vec!["[", "]", "|", "//", "\n", " ", "a", "b", "\u{a0}", "\r\n", "A"],
                 _ => die("unknown alphabet"),
